@@ -45,7 +45,7 @@ func (c *listCtx) verdict(rule, fname, construct string, fn *ssa.Function, it *I
 
 func newListInterp(w *World) *Interp {
 	it := NewInterp(w)
-	it.Fuel = 2000000
+	it.Fuel = 30000
 	it.Premise = it.T.one
 	return it
 }
@@ -376,11 +376,350 @@ func checkNssaiWalker(c *listCtx) {
 	}
 }
 
+// sliceOfAggs builds a slice value whose elements are the given aggregates (decomposed into cells).
+func sliceOfAggs(it *Interp, st *state, name string, elems []AggV) SliceV {
+	o := it.NewObj(name, false)
+	st.mem[o] = map[string]Value{}
+	for i, a := range elems {
+		it.storeQuiet(st, Ptr{Obj: o, Path: fmt.Sprintf("[%d]", i)}, a)
+	}
+	return SliceV{Obj: o, Len: len(elems)}
+}
+
+func sliceOfStrings(it *Interp, st *state, name string, elems []StrV) SliceV {
+	o := it.NewObj(name, false)
+	st.mem[o] = map[string]Value{}
+	for i, a := range elems {
+		st.mem[o][fmt.Sprintf("[%d]", i)] = a
+	}
+	return SliceV{Obj: o, Len: len(elems)}
+}
+
+// rejected NSSAI: the concatenation of the rejected S-NSSAI entries, PLMN-wide ones (cause 0000)
+// first, then registration-area ones (cause 0001); the IE length is the number of octets.
+func checkRejectedNssai(c *listCtx) {
+	fn, fname := c.fn("nasConvert", "RejectedNssaiToNas")
+	if fn == nil {
+		return
+	}
+	shapes := [][2][]bool{{{false}, {}}, {{}, {true}}, {{true, false}, {true}}, {{false, true, true}, {false, false}}}
+	for _, sh := range shapes {
+		c.r.Site("lay.rejected-nssai")
+		it := newListInterp(c.w)
+		st := it.NewState()
+		var want []BV
+		mk := func(list []bool, tag string, cause uint64) SliceV {
+			var elems []AggV
+			for i, withSD := range list {
+				a, sst, sd := snssaiArg(it, fmt.Sprintf("%s%d", tag, i), withSD)
+				elems = append(elems, a)
+				first := bvCat(it.constBV(uint64(1+len(sd)), 4), it.constBV(cause, 4))
+				want = append(want, wantSnssai(it, first, sst, sd)...)
+			}
+			return sliceOfAggs(it, st, tag, elems)
+		}
+		inPlmn := mk(sh[0], "plmn", 0)
+		inTa := mk(sh[1], "ta", 1)
+		res := it.Call(fn, []Value{inPlmn, inTa}, st, 0)
+		ag, ok := res.(AggV)
+		msg := "result not resolvable"
+		if ok {
+			got, okB := sliceBytes(it, st, ag.Cells[".Buffer"])
+			if !okB {
+				ok = false
+			} else if ok, msg = sameOctets(it, "rejected NSSAI contents", got, want); ok {
+				if ok, msg = sameBV(it, ag.Cells[".Len"], it.constBV(uint64(len(want)), 8)); !ok {
+					msg = "IE length is not the number of content octets: " + msg
+				}
+			}
+		}
+		c.verdict("lay.rejected-nssai", fname, fmt.Sprintf("PLMN entries (SD present) %v, area entries %v", sh[0], sh[1]), fn, it, ok, msg)
+	}
+}
+
+type plmnText struct{ mcc, mnc string }
+
+// plmnOctets: TS 24.008 10.5.1.3 coding of a PLMN given as decimal text.
+func plmnOctets(it *Interp, p plmnText) []BV {
+	d := func(ch byte) uint64 { return uint64(ch - '0') }
+	mnc3 := uint64(0xf)
+	mnc1, mnc2 := d(p.mnc[0]), d(p.mnc[1])
+	if len(p.mnc) == 3 {
+		mnc3 = d(p.mnc[2])
+	}
+	return []BV{it.constBV(d(p.mcc[1])<<4|d(p.mcc[0]), 8), it.constBV(mnc3<<4|d(p.mcc[2]), 8), it.constBV(mnc2<<4|mnc1, 8)}
+}
+
+func plmnPtr(it *Interp, st *state, name string, p plmnText) Ptr {
+	o := it.NewObj(name, false)
+	st.mem[o] = map[string]Value{".Mcc": StrV{Known: true, S: p.mcc}, ".Mnc": StrV{Known: true, S: p.mnc}}
+	return Ptr{Obj: o}
+}
+
+func modelDeepEqual(it *Interp) {
+	it.Models["reflect.DeepEqual"] = func(it *Interp, st *state, call *ssa.CallCommon, args []Value) (Value, bool) {
+		a, ok1 := args[0].(Ptr)
+		b, ok2 := args[1].(Ptr)
+		if !ok1 || !ok2 {
+			return nil, false
+		}
+		if a == b {
+			return it.constBV(1, 1), true
+		}
+		eq := true
+		for _, f := range []string{".Mcc", ".Mnc"} {
+			x, okx := st.mem[a.Obj][a.Path+f].(StrV)
+			y, oky := st.mem[b.Obj][b.Path+f].(StrV)
+			if !okx || !oky || !x.Known || !y.Known {
+				return nil, false
+			}
+			eq = eq && x.S == y.S
+		}
+		return it.constBV(uint64(b2i(eq)), 1), true
+	}
+}
+
+var plmnA = plmnText{"208", "93"}
+var plmnB = plmnText{"466", "092"}
+
+// taiArgs builds []models.Tai with symbolic TACs; mixed: alternate two PLMNs (distinct objects),
+// otherwise every entry points to its own copy of PLMN A.
+func taiArgs(it *Interp, st *state, n int, mixed bool) (SliceV, []plmnText) {
+	var elems []AggV
+	var plmns []plmnText
+	for i := 0; i < n; i++ {
+		p := plmnA
+		if mixed && i%2 == 1 {
+			p = plmnB
+		}
+		plmns = append(plmns, p)
+		elems = append(elems, AggV{Cells: map[string]Value{".PlmnId": plmnPtr(it, st, fmt.Sprintf("plmn%d", i), p), ".Tac": it.HexString(fmt.Sprintf("tac%d", i), 6)}})
+	}
+	return sliceOfAggs(it, st, "tais", elems), plmns
+}
+
+// wantTaiList: TS 24.501 9.11.3.9: 0 | type of list (2) | number of elements - 1 (5); type 00:
+// PLMN then the TACs; type 10: PLMN and TAC per element.
+func wantTaiList(it *Interp, plmns []plmnText, mixed bool) []BV {
+	n := len(plmns)
+	typ := uint64(0)
+	if mixed {
+		typ = 2
+	}
+	out := []BV{it.constBV(typ<<5|uint64(n-1), 8)}
+	if !mixed {
+		out = append(out, plmnOctets(it, plmns[0])...)
+	}
+	for i := 0; i < n; i++ {
+		if mixed {
+			out = append(out, plmnOctets(it, plmns[i])...)
+		}
+		out = append(out, hexBytes(it, fmt.Sprintf("tac%d", i), 3)...)
+	}
+	return out
+}
+
+func checkTaiList(c *listCtx) {
+	fn, fname := c.fn("nasConvert", "TaiListToNas")
+	if fn == nil {
+		return
+	}
+	for _, mixed := range []bool{false, true} {
+		for _, n := range []int{1, 2, 3, 16} {
+			if mixed && n == 1 {
+				continue
+			}
+			c.r.Site("lay.tai-list")
+			it := newListInterp(c.w)
+			modelDeepEqual(it)
+			st := it.NewState()
+			arg, plmns := taiArgs(it, st, n, mixed)
+			res := it.Call(fn, []Value{arg}, st, 0)
+			got, ok := sliceBytes(it, st, res)
+			msg := "result not resolvable"
+			if ok {
+				ok, msg = sameOctets(it, "TAI list", got, wantTaiList(it, plmns, mixed))
+			}
+			c.verdict("lay.tai-list", fname, fmt.Sprintf("%d TAIs, several PLMNs=%v", n, mixed), fn, it, ok, msg)
+		}
+	}
+}
+
+// service area list (TS 24.501 9.11.3.49), type 00: allowed type (1) | type of list 00 | number
+// of elements - 1 (5), PLMN, then the TACs; an element is one TAC.
+func checkServiceAreaList(c *listCtx) {
+	fn, fname := c.fn("nasConvert", "PartialServiceAreaListToNas")
+	if fn == nil {
+		return
+	}
+	for _, allowed := range []bool{true, false} {
+		for _, shape := range [][]int{{1}, {2}, {1, 2}, {3, 1, 2}, {16}} {
+			c.r.Site("lay.service-area")
+			it := newListInterp(c.w)
+			st := it.NewState()
+			var areas []AggV
+			var tacs []BV
+			k := 0
+			for _, nt := range shape {
+				var ts []StrV
+				for j := 0; j < nt; j++ {
+					ts = append(ts, it.HexString(fmt.Sprintf("tac%d", k), 6))
+					tacs = append(tacs, hexBytes(it, fmt.Sprintf("tac%d", k), 3)...)
+					k++
+				}
+				areas = append(areas, AggV{Cells: map[string]Value{".Tacs": sliceOfStrings(it, st, fmt.Sprintf("tacs%d", len(areas)), ts), ".AreaCode": StrV{Known: true}}})
+			}
+			rt := "NOT_ALLOWED_AREAS"
+			at := uint64(1)
+			if allowed {
+				rt, at = "ALLOWED_AREAS", 0
+			}
+			sar := AggV{Cells: map[string]Value{".RestrictionType": StrV{Known: true, S: rt}, ".Areas": sliceOfAggs(it, st, "areas", areas),
+				".MaxNumOfTAs": it.constBV(0, 32), ".MaxNumOfTAsForNotAllowedAreas": it.constBV(0, 32)}}
+			plmn := AggV{Cells: map[string]Value{".Mcc": StrV{Known: true, S: plmnA.mcc}, ".Mnc": StrV{Known: true, S: plmnA.mnc}}}
+			res := it.Call(fn, []Value{plmn, sar}, st, 0)
+			got, ok := sliceBytes(it, st, res)
+			msg := "result not resolvable"
+			if ok {
+				want := []BV{it.constBV(at<<7|uint64(k-1), 8)}
+				want = append(want, plmnOctets(it, plmnA)...)
+				want = append(want, tacs...)
+				ok, msg = sameOctets(it, "service area list", got, want)
+			}
+			c.verdict("lay.service-area", fname, fmt.Sprintf("allowed=%v TACs per area %v", allowed, shape), fn, it, ok, msg)
+		}
+	}
+}
+
+// symText: a string of n arbitrary octets named name[i].
+func symText(it *Interp, name string, n int) (StrV, []BV) {
+	s := StrV{Sym: true}
+	var bs []BV
+	for i := 0; i < n; i++ {
+		b := it.SrcBV(fmt.Sprintf("%s[%d]", name, i), 8)
+		s.Chars = append(s.Chars, b)
+		bs = append(bs, b)
+	}
+	return s, bs
+}
+
+// LADN (TS 24.501 9.11.3.30): length of DNN | DNN | length of TAI list | TAI list.
+func checkLadnToNas(c *listCtx) {
+	fn, fname := c.fn("nasConvert", "LadnToNas")
+	if fn == nil {
+		return
+	}
+	for _, dl := range []int{1, 8, 20} {
+		for _, n := range []int{1, 3} {
+			c.r.Site("lay.ladn")
+			it := newListInterp(c.w)
+			modelDeepEqual(it)
+			st := it.NewState()
+			dnn, dnnB := symText(it, "dnn", dl)
+			arg, plmns := taiArgs(it, st, n, false)
+			res := it.Call(fn, []Value{dnn, arg}, st, 0)
+			got, ok := sliceBytes(it, st, res)
+			msg := "result not resolvable"
+			if ok {
+				tl := wantTaiList(it, plmns, false)
+				want := append([]BV{it.constBV(uint64(dl), 8)}, dnnB...)
+				want = append(want, it.constBV(uint64(len(tl)), 8))
+				want = append(want, tl...)
+				ok, msg = sameOctets(it, "LADN", got, want)
+			}
+			c.verdict("lay.ladn", fname, fmt.Sprintf("DNN of %d octets, %d TAIs", dl, n), fn, it, ok, msg)
+		}
+	}
+}
+
+// LADN indication (TS 24.501 9.11.3.29): a sequence of (length of DNN | DNN); the decoder returns
+// exactly the DNN values, in order.
+func checkLadnToModels(c *listCtx) {
+	fn, fname := c.fn("nasConvert", "LadnToModels")
+	if fn == nil {
+		return
+	}
+	for _, shape := range [][]int{{1}, {8}, {3, 5}, {9, 1, 4}, {0, 2}, {2, 0}} {
+		c.r.Site("walk.ladn")
+		it := newListInterp(c.w)
+		st := it.NewState()
+		total := 0
+		for _, l := range shape {
+			total += l + 1
+		}
+		bufObj := it.NewObj("buf", true)
+		st.mem[bufObj] = map[string]Value{}
+		off := 0
+		var offs []int
+		for _, l := range shape {
+			offs = append(offs, off)
+			st.mem[bufObj][fmt.Sprintf("[%d]", off)] = it.constBV(uint64(l), 8)
+			off += l + 1
+		}
+		res := it.Call(fn, []Value{SliceV{Obj: bufObj, Len: total}}, st, 0)
+		sl, ok := res.(SliceV)
+		msg := "result not resolvable"
+		if ok {
+			if sl.Len != len(shape) && !(sl.Nil && len(shape) == 0) {
+				n := sl.Len
+				if sl.Nil {
+					n = 0
+				}
+				ok, msg = false, fmt.Sprintf("%d DNN values decoded, the indication holds %d", n, len(shape))
+			}
+			for i := 0; ok && i < len(shape); i++ {
+				v, isStr := elemOf(it, st, sl, i, nil).(StrV)
+				var chars []BV
+				switch {
+				case isStr && v.Sym:
+					chars = v.Chars
+				case isStr && v.Known && v.S == "":
+				default:
+					ok, msg = false, fmt.Sprintf("DNN %d not resolvable", i)
+				}
+				if ok && len(chars) != shape[i] {
+					ok, msg = false, fmt.Sprintf("DNN %d has %d octets, its length octet says %d", i, len(chars), shape[i])
+				}
+				for k := 0; ok && k < shape[i]; k++ {
+					if ok, msg = sameBV(it, chars[k], it.SrcBV(fmt.Sprintf("buf[%d]", offs[i]+1+k), 8)); !ok {
+						msg = fmt.Sprintf("DNN %d octet %d is not octet %d of the contents: %s", i, k, offs[i]+1+k, msg)
+					}
+				}
+			}
+		}
+		c.verdict("walk.ladn", fname, fmt.Sprintf("DNN lengths %v", shape), fn, it, ok, msg)
+	}
+}
+
 func propC13(w *World, r *Report, tier string) {
 	c := &listCtx{w: w, r: r}
+	r.Explanation = "Every encoder of the slice and area lists is interpreted over go/ssa in the bit-term domain (E2) on symbolic field values (SST, SD, TAC and DNN octets, cause) at a set " +
+		"of list shapes, and its output octets are compared with the TS 24.501 / TS 24.008 layout (length and header octets, n-1 element counts, element order, PLMN coding); every decoder " +
+		"is interpreted on symbolic content octets at concrete length octets and the fields of its result are shown to be exactly the octets the layout assigns to them; snssaiToModels is " +
+		"run for every length octet 0..255 (well-formed lengths 1,2,4,5,8 accepted with the right fields, every other length and every short buffer an error). Nothing is executed; each " +
+		"verdict covers all values of the symbolic octets."
+	r.Assumptions = []string{"SD and TAC texts are 6 lowercase hexadecimal characters, MCC/MNC decimal digit strings (the models' documented formats); malformed text is logged and skipped by the encoders and is not covered",
+		"list shapes are specialised: NSSAI shapes listed in nssaiShapes, TAI lists of 1,2,3,16 entries over one or two PLMNs, service-area lists with 1..3 areas of up to 16 TACs, LADN DNNs of 0..20 octets; not proven for every list length",
+		"PLMN equality in TaiListToNas (reflect.DeepEqual) is modelled on concrete PLMN values"}
+	r.Trusted = []string{"go/ssa", "E2 interpreter with its text models (hex, decimal digits)", "the checker's transcription of the TS 24.501 figures 9.11.2.8, 9.11.3.9, 9.11.3.29/30, 9.11.3.46, 9.11.3.49"}
+	defer func() {
+		r.Expect("lay.snssai", 4)
+		r.Expect("dec.snssai", 266)
+		r.Expect("walk.nssai", 20)
+		r.Expect("lay.rejected-nssai", 4)
+		r.Expect("lay.tai-list", 7)
+		r.Expect("lay.service-area", 10)
+		r.Expect("lay.ladn", 6)
+		r.Expect("walk.ladn", 6)
+	}()
 	checkSnssaiEncoders(c)
 	checkSnssaiDecoders(c)
 	checkNssaiWalker(c)
+	checkRejectedNssai(c)
+	checkTaiList(c)
+	checkServiceAreaList(c)
+	checkLadnToNas(c)
+	checkLadnToModels(c)
 }
 
 var _ = types.Typ
